@@ -102,8 +102,13 @@ Qed.
 Lemma wf_res_ok : forall rs i r, wf_res rs -> nth_error rs i = Some r -> res_ok rs r.
 Proof. intros rs i r W H. eapply res_ok_mono; [apply (prefix_firstn _ rs i)|auto]. Qed.
 
+Lemma assoc_N_in : forall A k (l : list (N * A)) v, assoc_N k l = Some v -> In (k, v) l.
+Proof.
+  induction l as [|[k' v'] l IH]; intros v H; [discriminate|]. cbn [assoc_N] in H.
+  destruct (N.eqb k k') eqn:E; [|right; auto]. apply N.eqb_eq in E. injection H as <-. subst k'. left; reflexivity.
+Qed.
 Definition vars_ok (cv : list (N * nat)) (rs : list resource) : Prop :=
-  forall name idx, assoc_N name cv = Some idx -> exists r, nth_error rs idx = Some r /\ is_var_res r = true.
+  forall name idx, In (name, idx) cv -> exists r, nth_error rs idx = Some r /\ is_var_res r = true.
 Definition needed_ok (nd : list (nat * list nat)) (rs : list resource) : Prop :=
   forall k v, In (k, v) nd -> typed rs k TAccount /\ forall x, In x v -> typed rs x TAsset \/ typed rs x TMonetary.
 
@@ -178,21 +183,23 @@ Record cstep (cs cs' : cstate) (code : list instr) : Prop := {
   cs_code : c_code cs' = c_code cs ++ code;
   cs_res : prefix (c_res cs) (c_res cs');
   cs_vars : c_vars cs' = c_vars cs;
-  cs_wf : wf cs -> wf cs'
+  cs_wf : wf cs -> wf cs';
+  cs_rvar : forall t n, In (RVar t n) (c_res cs') -> In (RVar t n) (c_res cs)   (* plain variables are only declared up front *)
 }.
 Lemma cstep_refl : forall cs, cstep cs cs [].
 Proof. intros; constructor; auto using prefix_refl. rewrite app_nil_r; reflexivity. Qed.
 Lemma cstep_trans : forall a b c c1 c2, cstep a b c1 -> cstep b c c2 -> cstep a c (c1 ++ c2).
 Proof.
-  intros a b c c1 c2 [C1 R1 V1 W1] [C2 R2 V2 W2]. constructor.
+  intros a b c c1 c2 [C1 R1 V1 W1 X1] [C2 R2 V2 W2 X2]. constructor.
   - rewrite C2, C1, app_assoc. reflexivity.
   - eapply prefix_trans; eassumption.
   - congruence.
   - auto.
+  - auto.
 Qed.
 Lemma ctx_ok_back : forall cs cs' code vals ve, cstep cs cs' code -> ctx_ok cs' vals ve -> ctx_ok cs vals ve.
 Proof.
-  intros cs cs' code vals ve [_ R V _] [C E]. split; [eapply compat_mono; eassumption|rewrite <- V; assumption].
+  intros cs cs' code vals ve [_ R V _ _] [C E]. split; [eapply compat_mono; eassumption|rewrite <- V; assumption].
 Qed.
 
 Lemma emit_ok : forall i cs u cs', emit i cs = Some (u, cs') -> cstep cs cs' [i].
@@ -241,15 +248,18 @@ Proof.
   - eapply needed_ok_mono; [apply prefix_app|assumption].
 Qed.
 
+Definition is_rvar (r : resource) : bool := match r with RVar _ _ => true | _ => false end.
+
 (* the address returned by [alloc] holds exactly the requested resource *)
-Lemma alloc_ok : forall r cs i cs', alloc r cs = Some (i, cs') -> wf cs -> res_ok (c_res cs) r ->
+Lemma alloc_ok : forall r cs i cs', alloc r cs = Some (i, cs') -> wf cs -> res_ok (c_res cs) r -> is_rvar r = false ->
   cstep cs cs' [] /\ nth_error (c_res cs') i = Some r.
 Proof.
-  intros r cs i cs' H W R.
+  intros r cs i cs' H W R NV.
   assert (App : append_resource r cs = Some (i, cs') -> cstep cs cs' [] /\ nth_error (c_res cs') i = Some r).
   { intros A. apply append_resource_ok in A as (-> & E1 & E2 & E3 & E4). split.
     - constructor; rewrite ?E1, ?E2, ?E3, ?app_nil_r; auto using prefix_app.
-      intros W'. eapply wf_append; eassumption.
+      + intros W'. eapply wf_append; eassumption.
+      + intros t n I. apply in_app_or in I as [I|[I|[]]]; [exact I|]. subst r. discriminate.
     - rewrite E1, nth_error_app2, Nat.sub_diag by lia. reflexivity. }
   unfold alloc in H. destruct r; auto.
   destruct (find_const (c_res cs) v 0) as [j|] eqn:F; auto.
